@@ -24,6 +24,21 @@ CHECKS = {
             "query), real SequentialityScorer.getScore in non-linear real arithmetic (both strands/variants), and real chainer+scorer on 2-3 segments."),
     "C15": ("5/C15", "Same exploration as C01; resolveConflicts' input and every pairwise resolution are observed: results are contiguous sub-runs of inputs with "
             "recomputed scores, no two result segments share a label or cross, pairs outside the overlap are kept."),
+    "C02": ("5/C02", "Real trim / getPositionsWithSiteIds / AlignmentResultRow.create / getUnalignedFragments / resolve and the real XMAP writer through pandas; "
+            "every numeric cell of the text is a marker mapping back to its symbolic term; an independent parser feeds validity queries for each field of each record "
+            "(first-pass, second-pass on a real fragment, joined), untrimmed symbolic query."),
+    "C05": ("5/C05", "Real filterOutSubsequentAlignmentsForSingleQuery on <= 4/5 symbolic rows; real per-query orchestration (__align, PeaksSelector) with scipy "
+            "entry points and aligner stubbed by arbitrary values: candidates come from the peaksCount best seeds, best candidate returned; real mode logic in 4 modes."),
+    "C07": ("5/C07", "No path of the real orchestration (stubbed seeding), of the whole aligner on degenerate maps, of the mode logic in four modes, or of the XMAP "
+            "writer raises; files written are read back by the real reader on path witnesses; concrete CLI replays of the degenerate input classes confirm through Program.run()."),
+    "C08": ("5/C08", "Real _MultiPassWorkflowCoordinator.execute run in the four multi-pass modes on the same symbolic first-/second-pass rows (real getUnalignedFragments, "
+            "filterOut, resolve, check_overlap): file equalities between modes, joined-record justification and faithfulness, as structural facts plus validity queries."),
+    "C16": ("5/C16", "Real vectorisePositions (<= 3/4 labels, <= 8 bins, symbolic start/end), blur (<= 6/8 symbolic bits, radius 0..4), toRelativeGenomicPositions (unbounded "
+            "symbolic bin/start), PeaksSelector.selectPeaks and CorrelationResult.createPeaks (symbolic scores/heights in object arrays)."),
+    "C17": ("5/C17", "TRIM HALF ONLY: real OpticalMap.trim on maps of <= 5/8 symbolic labels (first label to 0, count and distances kept, length, idempotence). The "
+            "CMAP reader half (pandas) is not decided and is listed as outside the claim."),
+    "C20": ("5/C20", "Real cluster_indels on <= 3/4 sorted calls (symbolic chromosome, interval, Length, blur), real write_indel_file with the text parsed back, real "
+            "look_for_indels_in_breakage of both indel finders with symbolic label coordinates."),
 }
 
 NOT_APPLICABLE = {
